@@ -17,6 +17,7 @@ import (
 	"sync"
 	"sync/atomic"
 
+	"github.com/samber/lo"
 	"github.com/synnaxlabs/x/errors"
 )
 
@@ -299,6 +300,8 @@ func (l *LookupIndex[K, E, V]) Get(tx Tx, values ...V) ([]K, error) {
 	if len(values) == 1 {
 		committed = l.getLocked(values[0])
 	} else {
+		// A value listed twice must not contribute its bucket twice.
+		values = lo.Uniq(values)
 		for _, v := range values {
 			committed = append(committed, l.getLocked(v)...)
 		}
@@ -559,6 +562,8 @@ func (s *SortedIndex[K, E, V]) Get(tx Tx, values ...V) ([]K, error) {
 		committed = make([]K, len(src))
 		copy(committed, src)
 	} else {
+		// A value listed twice must not contribute its bucket twice.
+		values = lo.Uniq(values)
 		for _, v := range values {
 			committed = append(committed, s.get(v)...)
 		}
